@@ -285,8 +285,44 @@ def gen_C19(ctx):
     return out
 
 
+def gen_C16(ctx):
+    import json as _json
+    r = ctx.rng("c16")
+    out = []
+    strings = conformance_strings()
+    for c in st_spellings(ctx, ctx.n(2500, 150000), ["S"], "c16-spell", group=1) + st_malformed(ctx, ctx.n(2500, 150000), ["S"], "c16-mal"):
+        strings.append(c["s"])
+    strings += [" pkg:npm/foo@1.0", "pkg:npm/foo@1.0 ", "\tpkg:t/n", "pkg:t/n\n", "pkg:t/n\u00a0", "pkg:t/a\\b", 'pkg:t/a"b', "pkg:t/\u0001"]
+    for s in strings:
+        sh = r.pick(["S", "P"])
+        out.append(case("serde %s ser %s" % (sh, hx(s)), "ser", s=s, shape=sh))
+        # the same string as a JSON document, in several spellings of the document
+        docs = [_json.dumps(s, ensure_ascii=False), _json.dumps(s, ensure_ascii=True)]
+        if r.chance(1, 4):
+            docs.append("  " + _json.dumps(s) + " \n")
+        if r.chance(1, 6):
+            docs.append(_json.dumps(s).replace("/", "\\/"))
+        for doc in docs:
+            try:
+                doc.encode("utf-8")
+            except UnicodeEncodeError:
+                continue
+            out.append(case("parse %s %s" % (sh, hx(s)), "de-reference", s=s, shape=sh))
+            out.append(case("serde %s de %s" % (sh, hx(doc)), "de-string", doc=doc, s=s, shape=sh, reference=len(out) - 1))
+    others = ["null", "true", "false", "1", "-1.5e3", "[]", '["pkg:t/n"]', "{}", '{"purl":"pkg:t/n"}', '"pkg:t/n', "pkg:t/n",
+              '"pkg:t/n" x', "", '"\\ud800"', '"pkg:t/\\x"', '"a\nb"'.replace("\\n", "\n"), "[1,2", '"pkg:t/n"}', "nul"]
+    for doc in others:
+        for sh in ("S", "P"):
+            out.append(case("serde %s de %s" % (sh, hx(doc)), "de-other", doc=doc, shape=sh))
+    for ident in IDENTS:
+        out.append(case("serde P pt %s" % ident, "pt", ident=ident))
+    return out
+
+
 GENS = {"C01": gen_C01, "C02": gen_C02, "C03": gen_C03, "C04": gen_C04, "C06": gen_C06, "C10": gen_C10, "C13": gen_C13, "C08": gen_C08, "C09": gen_C09, "C05": gen_C05, "C07": gen_C07, "C11": gen_C11, "C12": gen_C12,
-        "C14": gen_C14, "C15": gen_C15, "C18": gen_C18, "C19": gen_C19}
+        "C14": gen_C14, "C15": gen_C15, "C18": gen_C18, "C19": gen_C19, "C16": gen_C16}
+
+CONFIGS = {"C16": ["serde"]}
 
 ORACLES = {
     "C01": [O.oracle_C01],
@@ -304,6 +340,7 @@ ORACLES = {
     "C13": [O.oracle_C13],
     "C14": [O.oracle_C14, O.oracle_C04],
     "C15": [O.oracle_C15],
+    "C16": [O.oracle_C16],
     "C18": [O.oracle_C18],
     "C19": [O.oracle_C19],
 }
